@@ -115,4 +115,98 @@ PROPERTIES = {
         "specification taken from fakesnow's option table). patch() (a generator-based context manager using mock.patch) is outside the verifier's subset: bounded only.",
         "not_decided_here": "patch() restore behaviour and cli.main wiring: bounded tier only",
     },
+    # ---- properties whose content is mostly SQL / engine semantics: a deductive slice (fakesnow-side plumbing) plus a bounded differential tier
+    "C01": {
+        "level": "other",
+        "targets": [F("conn.FakeSnowflakeConnection.__init__"), F("cursor.FakeSnowflakeCursor.fetchmany"), F("cursor.FakeSnowflakeCursor.fetchone"), F("cursor.FakeSnowflakeCursor.fetchall")],
+        "also": {"fakesnow.cursor.FakeSnowflakeCursor.fetchmany": [r"C05\.fetchmany"], "fakesnow.cursor.FakeSnowflakeCursor.fetchone": [r"C05\.fetchone"], "fakesnow.cursor.FakeSnowflakeCursor.fetchall": [r"C05\.fetchall"]},
+        "bounded": "bounded.C01",
+        "trusted_base": [A_DUCK, "A-ARROW: pyarrow to_pylist conversion of DuckDB's arrow result to Python values"],
+        "explanation": "The value conversions themselves (DuckDB storage, arrow -> Python) are outside any contract on fakesnow code. Deductive slice: connect sets the session time zone to UTC as its last bootstrap "
+        "statement (timestamps come back naive / UTC-aware); fetchmany/fetchone/fetchall hand out the cells of the held arrow table unchanged, each row exactly once, NULL as None. "
+        "Bounded (deciding tier for the value semantics): every supported column type x boundary values x write path (literal, bound parameter, INSERT..SELECT, CTAS, CLONE, write_pandas) read back and compared.",
+        "not_decided_here": "value/type conversion by DuckDB and pyarrow for every value of every type: bounded tier only",
+    },
+    "C02": {
+        "level": "other",
+        "targets": [F("checks.equal"), F("cursor.FakeSnowflakeCursor._transform"), F("conn.FakeSnowflakeConnection.__init__"), F("cursor.FakeSnowflakeCursor._execute")],
+        "also": {"fakesnow.conn.FakeSnowflakeConnection.__init__": [r"C14\.names"], "fakesnow.cursor.FakeSnowflakeCursor._execute": [r"C04\.status\.", r"C03\.use\.(database|schema)\."]},
+        "labelled_only": ["fakesnow.cursor.FakeSnowflakeCursor._execute", "fakesnow.conn.FakeSnowflakeConnection.__init__"],
+        "bounded": "bounded.C02",
+        "trusted_base": [A_DUCK, A_SQLGLOT, A_WF, "A-TX: transforms.upper_case_unquoted_identifiers upper-cases exactly the unquoted identifiers (node-level transform, not under contract)"],
+        "explanation": "Deductive slice: checks.equal is Snowflake identifier equality (fold unquoted, keep quoted) for all identifier pairs; upper_case_unquoted_identifiers is the first transform of every statement "
+        "and runs before the transforms that produce status / context (set_schema, show_*); conn.database/schema are the upper-cased arguments; status messages and USE bookkeeping use the normalised name. "
+        "Bounded (deciding tier): scenario histories of every statement kind re-spelled (keywords x identifiers in lower / UPPER / mIxEd / random, quoted upper-case naming) against the all-upper baseline.",
+        "not_decided_here": "case-insensitivity of sqlglot's parser and DuckDB's resolution for every statement: bounded tier only",
+    },
+    "C09": {
+        "level": "other",
+        "targets": [F("info_schema.insert_table_comment_sql"), F("info_schema.insert_text_lengths_sql"), F("types.describe_as_rowtype.<locals>.as_column_info"), F("cursor.FakeSnowflakeCursor._execute")],
+        "also": {"fakesnow.types.describe_as_rowtype.<locals>.as_column_info": [r"C06\.rowtype\."], "fakesnow.cursor.FakeSnowflakeCursor._execute": [r"C09\."]},
+        "labelled_only": ["fakesnow.cursor.FakeSnowflakeCursor._execute"],
+        "bounded": "bounded.C09",
+        "trusted_base": [A_DUCK, A_SQLGLOT, A_WF, "the information_schema view definitions (SQL text in info_schema.py) are DuckDB programs, not Python: outside the verifier"],
+        "explanation": "The agreement of the metadata views with the live catalog is decided by SQL view definitions executed by DuckDB. Deductive slice: the side-table SQL builders are total; after a CREATE TABLE with "
+        "declared text lengths / a comment statement _execute records them for the statement's own catalog.schema.table on the cursor's DuckDB connection; the Snowflake type names, precision and scale "
+        "of a description come from the proved rowtype table. Bounded (deciding tier): DDL histories against a reference catalog, all metadata surfaces compared in every scope.",
+        "not_decided_here": "the information_schema / SHOW SQL itself: bounded tier only",
+    },
+    "C10": {
+        "level": "other",
+        "targets": [F("cursor.FakeSnowflakeCursor._transform"), F("cursor.FakeSnowflakeCursor._execute")],
+        "also": {"fakesnow.cursor.FakeSnowflakeCursor._transform": [r"C11\.pipeline\.order"]},
+        "labelled_only": ["fakesnow.cursor.FakeSnowflakeCursor._execute"],
+        "bounded": "bounded.C10",
+        "trusted_base": [A_DUCK, A_SQLGLOT, "A-TX: the node-level rewrite functions in transforms.py (pattern matches over sqlglot trees) are not under contract"],
+        "explanation": "What a rewritten function returns is decided by DuckDB evaluating the rewritten SQL. Deductive slice: every statement passes through the whole transform pipeline in the fixed order "
+        "(each rewrite applied exactly once, to the output of the previous one), and a database created by a statement gets the macros the rewrites rely on. "
+        "Bounded (deciding tier): each function of the property x argument lists x syntactic contexts (select list, WHERE, nested, DML, view, CTE) against Snowflake's documented results.",
+        "not_decided_here": "value and type semantics of each rewrite: bounded tier only",
+    },
+    "C11": {
+        "level": "other",
+        "targets": [F("cursor.FakeSnowflakeCursor._transform")],
+        "bounded": "bounded.C11",
+        "trusted_base": [A_DUCK, A_SQLGLOT, "A-TX: node-level JSON rewrites in transforms.py are not under contract"],
+        "explanation": "JSON semantics are decided by DuckDB's json extension on the rewritten SQL. Deductive slice: the order-sensitive JSON rewrites run in the order their correctness depends on "
+        "(trim/cast handling before json_extract_cast_as_varchar, precedence fix after extraction, ...) for every statement. "
+        "Bounded (deciding tier): JSON documents x paths x casts x contexts against navigating the same document in Python.",
+        "not_decided_here": "JSON navigation / cast semantics: bounded tier only",
+    },
+    "C12": {
+        "level": "other",
+        "targets": [F("transforms_merge.merge"), F("cursor.FakeSnowflakeCursor._transform_explode"), F("checks.equal")],
+        "also": {"fakesnow.checks.equal": [r"C02\.equal"]},
+        "bounded": "bounded.C12",
+        "trusted_base": [A_DUCK, A_SQLGLOT, "assumed contracts of _create_merge_candidates / _mutations / _counts (templates over sqlglot trees; exercised by the bounded tier)"],
+        "explanation": "Deductive slice: merge() turns a MERGE into candidates + one mutation per WHEN clause (in clause order) + counts, in that order, parses each generated statement exactly once, passes "
+        "every other statement through untouched and fails only for a MERGE; _transform_explode preserves this. The row-level semantics (first applicable clause, true counts, atomicity) are decided by "
+        "DuckDB executing the generated statements. Bounded (deciding tier): MERGE clause combinations x data against a Python reference of Snowflake's MERGE.",
+        "not_decided_here": "row-level semantics of the generated SQL; atomicity (known finding); helper-table visibility (known finding)",
+    },
+    "C15": {
+        "level": "other",
+        "targets": [F("variables.Variables.inline_variables"), F("cursor.FakeSnowflakeCursor._inline_variables"), F("cursor.FakeSnowflakeCursor._transform"), F("conn.FakeSnowflakeConnection.__init__"),
+                    F("conn.FakeSnowflakeConnection.cursor"), F("cursor.FakeSnowflakeCursor.execute")],
+        "also": {"fakesnow.cursor.FakeSnowflakeCursor.execute": [r"C07\.undefined_var", r"C08\.order\.inline_first"]},
+        "labelled_only": ["fakesnow.conn.FakeSnowflakeConnection.__init__", "fakesnow.cursor.FakeSnowflakeCursor.execute"],
+        "bounded": "bounded.C15",
+        "trusted_base": ["A-PY re.sub / re.search semantics (the substitution itself is a regular expression evaluated by CPython)", A_SQLGLOT],
+        "explanation": "Deductive slice: each connection owns a fresh, empty variable store shared by all of its cursors and by no other connection; every statement's text is inlined through that store before "
+        "parsing and binding; update_variables is applied to every statement with that store; an undefined reference raises before anything is parsed or executed. "
+        "The textual substitution (prefix names, non-references untouched, letter case) is a regular expression: decided by the bounded tier against a reference tokenizer, exhaustively over short texts.",
+        "not_decided_here": "regular-expression semantics of the substitution: bounded tier only",
+    },
+    "C17": {
+        "level": "other",
+        "targets": [F("server.to_conn"), F("types.describe_as_rowtype.<locals>.as_column_info"), F("types.describe_as_rowtype"), F("cursor.FakeSnowflakeCursor._describe_last_sql")],
+        "also": {"fakesnow.types.describe_as_rowtype.<locals>.as_column_info": [r"C06\.rowtype\."], "fakesnow.types.describe_as_rowtype": [r"C06\.rowtype\."], "fakesnow.cursor.FakeSnowflakeCursor._describe_last_sql": [r"C06\.frame\."]},
+        "bounded": "bounded.C17",
+        "trusted_base": [A_DUCK, "pyarrow compute / IPC and the Snowflake connector's arrow decoder (C++), starlette request handling: outside the verifier"],
+        "explanation": "Deductive slice: to_conn refuses a missing token with 401/390103 and an unknown one with 401/390104 without touching the session map, and otherwise returns exactly the session of the token; "
+        "the rowtype sent to the client is the proved DuckDB->Snowflake table, one entry per column in order; the describe-after-execute step changes nothing reachable from the cursor or connection. "
+        "login_request / query_request are async starlette handlers and arrow.py is pyarrow compute: outside the subset. Bounded (deciding tier): the real connector against the real server vs the "
+        "in-process fake over column types x values (every microsecond fraction for the struct encoder in the thorough tier), statement kinds, sessions and tokens.",
+        "not_decided_here": "arrow encoding and connector decoding; login/query handlers: bounded tier only",
+    },
 }
